@@ -245,9 +245,22 @@ class AnsiString:
         s = str(s) # In case this is an AnsiStr, get the raw string rather than its overrides
         current_settings:Dict[AnsiParamEffect, AnsiSetting] = {}
         parsed_str = ParsedAnsiControlSequenceString(s, False, ansi_graphic_rendition_code_terminator)
-        self._s = parsed_str.unformatted_str
-        self._fmts = {}
+        # A sequence with a private parameter string (ex: ESC[>4;2m or ESC[?4m) is not a graphic rendition
+        # sequence even though it ends with 'm': like any other control sequence, it stays in the text
+        self._s = ''
+        sequences:Dict[int,list] = {}
+        last_key = 0
         for key, value_list in parsed_str.sequences.items():
+            self._s += parsed_str.unformatted_str[last_key:key]
+            last_key = key
+            for value in value_list:
+                if value.sequence[:1] in ('<', '=', '>', '?'):
+                    self._s += ansi_control_sequence_introducer + value.sequence + value.terminator
+                else:
+                    sequences.setdefault(len(self._s), []).append(value)
+        self._s += parsed_str.unformatted_str[last_key:]
+        self._fmts = {}
+        for key, value_list in sequences.items():
             for value in value_list:
                 if key >= len(self._s):
                     break
